@@ -677,6 +677,8 @@ def run_c18(tier, deadline):
         os.makedirs(tmpd, exist_ok=True)
         args = ["--config", c, "--mode", mode, "--bound", str(bound), "--threads", str(threads), "--tmpdir", tmpd, "--tier", tier] + (["--core"] if core else []) + (["--seq"] if seq else [])
         if tier == "quick" and (mode == "fine" or seq):
+            if mode == "fine":
+                args += ["--smallcore"]     # quick tier: ten operations instead of fifteen at function-entry granularity
             args += ["--shapes", "0,3"]     # quick tier: the shape with isolated low vertices and the one with a long mutation history
         j = Job(builds[(c, comp)], args, label="%s %s %s k=%d P<=%d%s%s" % (comp, c, mode, threads, bound, " core" if core else "", " two-call sequences" if seq else ""), timeout=(dl or deadline) + 300, deadline=dl or deadline, env=TSAN_ENV)
         jobs.append(j)
